@@ -41,7 +41,7 @@ def policer_integration(rep):
             calls = [("get", "1.3.6.1.2.1.1.1.0"), ("get_many", ["1.3.6.1.2.1.1.1.0", "1.3.6.1.2.1.1.2.0"]), ("getnext", "1.3.6.1.2.1.2")]
             if ver != "v1":
                 calls += [("getbulk", "1.3.6.1.2.1.2", 3), ("fetch", "1.3.6.1.2.1.2")]
-            outs = drivers.run_calls(G, driver, cfg, calls, handler, timeout=2.0, session_kw={"policer": Rec()})
+            outs = drivers.run_calls(G, driver, cfg, calls, handler, timeout=5.0, session_kw={"policer": Rec()})
             if any(o.kind != "ok" for o in outs):
                 raise core.Failure("rate-limited-session-failed", "%s/%s with a policer: %r" % (driver, ver, outs))
             nreq = log.count("request")
